@@ -1,1 +1,98 @@
-CHECKS = {}
+"""C17: Relying Party login handlers (spec/RP.tla, RPDesign.tla, RPMBT.tla, RPTrace.tla; harness/rpdrv)."""
+import json, os, time, collections
+from vlib import *  # noqa
+from opfamily import parse_behaviours
+
+SIZES = {"quick": dict(walks=400, rand=300, depth=14), "thorough": dict(walks=6000, rand=6000, depth=20)}
+
+
+def rp_monitor(wd):
+    vp = os.path.join(wd, "viol.ndjson")
+    if os.path.exists(vp):
+        os.remove(vp)
+    t = tlc(wd, "RPTrace.tla", cfg="RPTrace.cfg", workers=1, timeout=3600)
+    if not os.path.exists(vp):
+        raise Inconclusive("RP monitor did not consume the whole trace:\n" + "\n".join(t["out"].splitlines()[-30:]))
+    rows = read_ndjson(vp)
+    return rows[1:], rows[0]["lines"]
+
+
+def rp_check(pid, tier, seed, replay=None):
+    t0 = time.time()
+    wd = workdir(pid)
+    try:
+        if tier == "replay":
+            return rp_replay(pid, wd, replay)
+        sz = SIZES[tier]
+        d = tlc(wd, "RPDesign.tla", cfg=f"RPDesign_{tier}.cfg", timeout=3600)
+        log(f"[{pid}] design RPDesign_{tier}.cfg: {d['distinct']} distinct / {d['generated']} generated states, depth {d['depth']}: NoViolation holds")
+        m = tlc(wd, "RPMBT.tla", cfg="RPMBT.cfg", workers=1, simulate=f"num={sz['walks']}", depth=12, seed=seed, timeout=1800)
+        behs = parse_behaviours(m["out"])
+        if not behs:
+            raise Inconclusive("no behaviours from TLC:\n" + m["out"][-1500:])
+        with open(os.path.join(wd, "b.ndjson"), "w") as f:
+            for i, b in enumerate(behs):
+                f.write(json.dumps(dict(id=f"mbt-{i}", cfg=b["cfg"], steps=b["steps"])) + "\n")
+        binp = go_build(wd, race=True)
+        rc, out = run([binp, "rp-replay", "-in", "b.ndjson", "-out", "trace.ndjson", "-n", str(sz["rand"]), "-depth", str(sz["depth"]), "-seed", str(seed)], wd, timeout=3600)
+        if "DATA RACE" in out:
+            with open(os.path.join(wd, "race.txt"), "w") as f:
+                f.write(out)
+            p = save_replay(pid, wd, ["race.txt", "b.ndjson"], seed, tier)
+            log(f"VIOLATION property={pid} replay={p} signature=C17.datarace :: race detector report while several browsers logged in through one handler")
+            return 1
+        if rc != 0 or "REPLAYED" not in out:
+            raise Inconclusive("rp-replay failed:\n" + out[-3000:])
+        viols, lines = rp_monitor(wd)
+        trace = read_ndjson(os.path.join(wd, "trace.ndjson"))
+        for v in viols:
+            e = trace[v["line"] - 1]
+            v["run"], v["op"], v["args"], v["observed"] = e.get("run"), e["op"], e["args"], e["out"]
+        cov = collections.Counter((e["op"], e["out"].get("class")) for e in trace)
+        for need in (("StartLogin", "redirect"), ("Callback", "exchanged"), ("Callback", "unauthorized")):
+            if not cov[need]:
+                raise Inconclusive(f"vacuous run: no event {need}")
+        tam = collections.Counter((e["args"].get("tamper"), e["args"].get("form"), e["out"].get("class")) for e in trace if e["op"] == "Callback")
+        new, known = report(pid, viols, lambda v: f"{v['rule']}:{v['op']}:{v['args'].get('tamper', '')}:{v['args'].get('form', '')}:{'stress' if v['run'] == 'stress' else 'seq'}",
+                            lambda v: dict(rule=v["rule"], line=v["line"], run=v["run"], op=v["op"], args=v["args"], observed=v["observed"]),
+                            wd, ["trace.ndjson", "viol.ndjson", "b.ndjson"], seed, tier)
+        runs = sum(1 for e in trace if e["op"] == "Reset")
+        write_evidence(pid, tier, seed, "model_checking", dict(
+            states=d["distinct"], transitions=d["generated"], traces_validated_against_impl=runs,
+            samples=[dict(op=e["op"], args=e["args"], out=e["out"]) for e in trace[1:10]],
+            evaluations=len(trace), distinct_nontrivial=len({json.dumps([e["op"], e["args"], e["out"].get("class")], sort_keys=True) for e in trace}),
+            rule="one trace = one relying party with two browsers (TLC-generated behaviour or seeded random history) or one concurrent login of the stress run",
+            design=dict(cfg=f"RPDesign_{tier}.cfg", states=d["distinct"], transitions=d["generated"], depth=d["depth"]),
+            tlc_behaviours_replayed=len(behs), random_histories=sz["rand"], monitor_lines=lines,
+            event_coverage={f"{k[0]}:{k[1]}": v for k, v in sorted(cov.items(), key=str)},
+            callback_coverage={f"{k[0]}/{k[1]}:{k[2]}": v for k, v in sorted(tam.items(), key=str)},
+            known_findings_seen=known, exhaustive=False), time.time() - t0, new,
+            assumptions=["fake provider = http.RoundTripper recording every token request; the RP is rp.NewRelyingPartyOAuth (no ID token), so only the login handlers are under test",
+                         "cookie tampering: dropped, minted under another key, minted for the other cookie name, truncated; state parameter: exact, proper prefix, with suffix, empty, never issued",
+                         "concurrent logins through one handler run under the race detector; each response is judged against its own cookies"])
+        log(f"[{pid}] {len(behs)} TLC behaviours + {sz['rand']} random histories + concurrent logins (-race): {len(trace)} events validated by RPTrace; {len(viols)} rule failures ({new} new, {known} known)")
+        return 1 if new else 0
+    finally:
+        cleanup(wd)
+
+
+def rp_replay(pid, wd, path):
+    import shutil
+    binp = go_build(wd, race=True)
+    if os.path.exists(os.path.join(path, "b.ndjson")):
+        shutil.copy(os.path.join(path, "b.ndjson"), wd)
+    rc, out = run([binp, "rp-replay", "-in", "b.ndjson", "-out", "trace.ndjson", "-n", "200", "-depth", "14"], wd)
+    if "DATA RACE" in out:
+        log(f"VIOLATION property={pid} replay={path} (race detector)")
+        return 1
+    viols, lines = rp_monitor(wd)
+    log(f"[{pid}] re-drove {lines} events: {len(viols)} rule failures")
+    for v in viols[:20]:
+        log("  ", json.dumps(v))
+    if viols:
+        log(f"VIOLATION property={pid} replay={path}")
+        return 1
+    return 0
+
+
+CHECKS = {"C17": rp_check}
